@@ -7,7 +7,8 @@ SPEC = {
                 3: "no_change_lost_while_connected", 9: "malformed observation"},
     "rule": "a case = one schedule of session adds/updates/deletes on a real active HASyncer, broadcast-loop iterations, heartbeats, real performFullSync over loopback HTTP, stream attach (real handleSessionStream into a driver-owned blocking writer), deliveries into the real handleSSEData and disconnects; both stores, the received map, queue lengths and the message concerned are observed after every operation; distinct = distinct case terms",
     "assumptions": [
-        "standbyLoop / connectToStream (reconnect backoff, SSE line reader, periodic full-sync timer) are replaced by the driver's schedule; TCP and net/http buffering by the blocking writer (one message in flight)",
+        "message-layer streams: standbyLoop / connectToStream are replaced by the driver's schedule and TCP buffering by the blocking writer (one message in flight); the e2e stream runs the real standbyLoop/connectToStream/broadcastLoop over loopback HTTP with FullSyncInterval at its default and only the reconnect backoff shortened, observing the stores at bounded-poll quiescence",
+        "e2e link cuts are orderly closes (503 gate + CloseClientConnections), not packet loss; the periodic full-sync ticker (5 min) never fires within a case",
         "the full sync is one atomic step of the schedule (active-side operations between snapshot and application commute with the application)",
         "guard of the _partial theorems: lossless = no change broadcast to nobody between a full sync and the stream attach, no overflow of the client channel or the pending queue",
         "a single standby; TLS not exercised",
@@ -18,7 +19,7 @@ SPEC = {
 }
 
 MANIFEST = {
-    "text": "The HA sync message layer (active store, pending-change queue, client channel with the code's drop-on-full, link state, standby store and received map) is a Gallina state machine. Over ALL schedules and queue capacities: a completed full sync leaves the standby equal to the snapshot (after fix ff081a5: full sync used to keep sessions deleted while the standby was away); pushed changes leave the queue and reach the standby in push order and each delivery applies exactly its message; quiescent convergence (link up, queues empty => tables equal) is proved for every schedule in which no change is lost on the way and refuted otherwise by machine-checked witnesses that the check replays on the real code: a change broadcast between the snapshot and the stream attach (known finding K13b), channel/queue overflow (K13c). The same monitor runs on traces of two real HASyncers on every run.",
+    "text": "The HA sync message layer (active store, pending-change queue, client channel with the code's drop-on-full, link state, standby store and received map) is a Gallina state machine. Over ALL schedules and queue capacities: a completed full sync leaves the standby equal to the snapshot (after fix ff081a5: full sync used to keep sessions deleted while the standby was away); pushed changes leave the queue and reach the standby in push order and each delivery applies exactly its message; quiescent convergence (link up, queues empty => tables equal) is proved for every schedule in which no change is lost on the way and refuted otherwise by machine-checked witnesses that the check replays on the real code: a change broadcast between the snapshot and the stream attach (known finding K13b), channel/queue overflow (K13c). The same monitor runs on traces of two real HASyncers on every run, and an end-to-end stream runs the real standby loop through forced disconnects with changes during the outage (reconnect = full sync then stream, as in the Model).",
     "note": "Theorems are about the hand-written Model; the tie is the differential run at the message layer (real PushChange / broadcastToClients / handleGetSessions / handleSessionStream / performFullSync over loopback HTTP / handleSSEData). standbyLoop, connectToStream's reader, reconnect timing and TCP buffering are outside the Model.",
     "technique": "Rocq proof (monitor state = projection of Model state; per-step clause lemmas; queue/last-message invariant lifted over all operation lists) + differential correspondence with vm_compute evaluation of Model and monitor",
     "design_ref": "DESIGN.md §8 C13",
